@@ -180,6 +180,19 @@ def fixed_streams():
     ]
 
 
+def big_streams():
+    """a stream with frames far beyond 64 KiB whose content compresses very well (and one that does not)"""
+    import random
+
+    from flow.record import RecordDescriptor
+
+    B = RecordDescriptor("s/big", [("bytes", "blob"), ("string", "text"), ("varint", "n")])
+    kw = dict(_generated=GEN)
+    rnd = random.Random(5)
+    noise = bytes(rnd.getrandbits(8) for _ in range(70000))
+    return [[B(b"x", "small", 1, **kw), B(b"\x00" * 200000, "z" * 70000, 2, **kw), B(b"y", "after the big one", 3, **kw), B(noise, "noise", 4, **kw), B(b"", "last", 5, **kw)]]
+
+
 def churn_streams():
     """descriptor CHURN: a long-lived writer is fed records whose (equal) descriptors are re-created for every job and
     freed again, interleaved with records of brand-new types -- the objects come and go and their addresses are
@@ -204,6 +217,26 @@ def churn_streams():
                 return N("x", **kw)
             recs += [same, same, same, new] if job % 2 == 0 else [same, new]
         out.append(recs)
+    # the SAME record object written twice with one of its values changed in between -- directly on the (member) record
+    from flow.record import GroupedRecord
+
+    P = RecordDescriptor("mut/plain", [("string", "a"), ("varint", "n")])
+    M = RecordDescriptor("mut/member", [("string", "rule")])
+    plain = P("first", 1, **kw)
+    grouped = GroupedRecord("mut/grouped", [P("in-group", 2, **kw), M("rule-1", **kw)])
+
+    def again_plain():
+        plain.a = "second"
+        return plain
+
+    def again_grouped():
+        grouped.records[1].rule = "rule-2"          # not through the grouped view
+        return grouped
+
+    def third_grouped():
+        grouped.records[0].n = 3
+        return grouped
+    out.append([lambda: plain, lambda: grouped, again_plain, again_grouped, third_grouped, lambda: plain])
     return out
 
 
